@@ -62,7 +62,8 @@ theorem pack_create_alive {w : WM} {iss : List Handle} {s : WS} (hi : Inv ⟨w, 
     have : e.id < (startCreate w e).slots.length := hsf.2.2.2
     show e.id ≠ 2^30 - 1
     omega
-  rcases created_moved info hstep0.ok e hfresh hsf.2.2.1 hnid (closedMask w.deps m) sh pf hpinv.sorted hpinv.closedF with
+  rcases created_moved info hstep0.ok e hfresh hsf.2.2.1 hnid (closedMask w.deps m) sh pf hpinv.sorted
+    (hpinv.closedF.elim (fun h => by rw [h]; intro x hx; cases hx) id) with
     ⟨hm1, hks1, hcb1, hmask0⟩
   have hmask1 : ((packMoved info e true (closedMask w.deps m) sh (startCreate w e) pf).1.arch
       ((startCreate w e).getArch pf.final sh).2).mask = pf.final := by rw [(hks1.key _).1]; exact hmask0
@@ -74,9 +75,6 @@ theorem pack_create_alive {w : WM} {iss : List Handle} {s : WS} (hi : Inv ⟨w, 
   have hkey := getArch_key (startCreate w e) pf.final sh
   have hAK1 : AllKeys (fun _ s => SharedIn w.pool s) ((startCreate w e).getArch pf.final sh).1 :=
     AllKeys.getArch (P := fun _ s => SharedIn w.pool s) (w := startCreate w e) hi.shared pf.final sh hshin
-  have hAK2 : AllKeys (fun mk _ => ClosedUnder w.deps mk) ((startCreate w e).getArch pf.final sh).1 :=
-    AllKeys.getArch (P := fun mk _ => ClosedUnder w.deps mk) (w := startCreate w e) hi.closed pf.final sh
-      (closedMask_closed hi.depsB pf.final)
   generalize hXdef : (packFinish info e true (closedMask w.deps m) sh (startCreate w e, pf, [])).1 = X at *
   generalize hCdef : (packFinish info e true (closedMask w.deps m) sh (startCreate w e, pf, [])).2 = C at *
   generalize htidef : ((startCreate w e).getArch pf.final sh).2 = ti at *
@@ -134,10 +132,6 @@ theorem pack_create_alive {w : WM} {iss : List Handle} {s : WS} (hi : Inv ⟨w, 
       show AllKeys (fun _ s => SharedIn X'.pool s) X'
       have : X'.pool = w.pool := by rw [← hX'def]; exact hXpool
       rw [this, ← hX'def]; exact hAK1.keysSame ⟨hkeysX.alen, hkeysX.key⟩)
-    (by
-      show AllKeys (fun mk _ => ClosedUnder X'.deps mk) X'
-      have : X'.deps = w.deps := by rw [← hX'def]; exact hsameX.deps
-      rw [this, ← hX'def]; exact hAK2.keysSame ⟨hkeysX.alen, hkeysX.key⟩)
     (by rw [← hX'def]; exact hsameX.worldId) (by rw [← hX'def]; exact hsameX.deps) (by rw [← hX'def]; exact hXpool)
     (by rw [← hX'def]; exact hsameX.nextInst) (by rw [← hX'def]; rfl) (by rw [← hX'def]; exact hsameX.nthreads)
     (by rw [← hX'def]; exact hXm)
